@@ -398,6 +398,13 @@ def _law_case(case):
         flat_ = np.full(shape, cv_, np.float32)
         case.check(close(pipe.gaussian_filter(sigma=sg_, mode="constant", cval=cv_)(flat_, scale), flat_, 1e-5),
                    "pipe.gaussian_filter: a constant image padded with the same constant is not a fixed point", None)
+        # whole-pixel shifts are shifts like any other (the image content at the borders is not periodic)
+        shi_ = tuple(float(v) * scale for v in rng.integers(-2, 3, 3))
+        for md_ in ("nearest", "constant"):
+            got_ = np.asarray(pipe.shift(shi_, mode=md_, cval=cv_)(x, scale))
+            want_ = _ndi.shift(x, np.round(np.asarray(shi_) / scale), order=1, prefilter=False, mode=md_, cval=cv_)
+            case.check(close(got_, want_, 1e-5), "pipe.shift by a whole number of pixels != scipy shift", None, mode=md_,
+                       shift_px=tuple(np.round(np.asarray(shi_) / scale)))
         shv_ = tuple(float(v) * scale for v in rng.uniform(-1.5, 1.5, 3))
         for md_ in ("nearest", "constant", "reflect"):
             got_ = np.asarray(pipe.shift(shv_, mode=md_, cval=cv_)(x, scale))
@@ -497,6 +504,43 @@ def _law_case(case):
                 got_m = np.asarray(pipe.from_atoms(atoms, weights=wts, center=tuple(atoms.mean(0)))(scale))
                 case.check(got_m.shape == got_h.shape and np.allclose(got_m, got_h), "from_atoms(center=None) != "
                            "from_atoms(center=mean(atoms))", None, scale=scale)
+        # file providers: the voxel size comes from each file's own header (a numpy-only reader is registered for
+        # the test suffix), from_files == [from_file ...], an explicit original_scale overrides every header
+        import os as _os, tempfile as _tf, shutil as _sh
+        from acryo import _reader as _rd
+
+        if ".c19vol" not in _rd.REG._reader:
+            @_rd.REG.register(".c19vol")
+            def _open_c19(path):
+                with open(path, "rb") as fh:
+                    hdr = np.frombuffer(fh.read(32), dtype=np.float64)
+                    data = np.frombuffer(fh.read(), dtype=np.float32).reshape(tuple(int(v) for v in hdr[1:4]))
+                return data, float(hdr[0])
+        tmpd = _tf.mkdtemp(prefix="c19f_")
+        try:
+            paths, vox = [], [float(v) for v in rng.choice([0.5, 0.8, 1.0, 1.6, 2.0], size=3, replace=False)]
+            for kf, vs in enumerate(vox):
+                arr = (img * (kf + 1)).astype(np.float32)
+                pth = _os.path.join(tmpd, f"t{kf}.c19vol")
+                with open(pth, "wb") as fh:
+                    fh.write(np.array([vs, *arr.shape], dtype=np.float64).tobytes())
+                    fh.write(np.ascontiguousarray(arr).tobytes())
+                paths.append(pth)
+            many = pipe.from_files(paths)(scale)
+            for kf, (pth, vs) in enumerate(zip(paths, vox)):
+                one = np.asarray(pipe.from_file(pth)(scale))
+                viaarr = np.asarray(pipe.from_array((img * (kf + 1)).astype(np.float32), original_scale=vs)(scale))
+                case.check(one.shape == viaarr.shape and close(one, viaarr, 1e-5), "from_file(path) != from_array(data, "
+                           "original_scale=header voxel size)", None, voxel=vs, scale=scale)
+                case.check(np.asarray(many[kf]).shape == one.shape and close(many[kf], one, 1e-6),
+                           "from_files(paths)[k] != from_file(paths[k])", None, k=kf, voxels=vox, scale=scale,
+                           got=np.asarray(many[kf]).shape, want=one.shape)
+            forced = pipe.from_files(paths, original_scale=o)(scale)
+            want_f = np.asarray(pipe.from_array(img, original_scale=o)(scale))
+            case.check(all(np.asarray(f_).shape == want_f.shape for f_ in forced),
+                       "from_files(original_scale=) does not override the header voxel sizes", None)
+        finally:
+            _sh.rmtree(tmpd, ignore_errors=True)
         outs = pipe.from_arrays([img, img * 2], original_scale=o)(scale)
         case.check(isinstance(outs, list) and len(outs) == 2 and close(outs[0], out) and close(outs[1], out * 2, 1e-4),
                    "from_arrays != [from_array(img) for img in imgs]", None)
